@@ -49,7 +49,7 @@ func genC06Batch(maxProbes int) func(t *rapid.T) C06Batch {
 		c := C06Batch{Keys: kit.GenKeyUniverse(t, 1, 8), CacheN: rapid.SampledFrom([]int{0, 100}).Draw(t, "cache")}
 		n := rapid.IntRange(1, maxProbes).Draw(t, "nprobes")
 		for i := 0; i < n; i++ {
-			p := C06Probe{Kind: rapid.SampledFrom([]string{"random", "random", "trunc", "flip", "wrongkey", "replay", "reflect", "badatyp", "corruptaddr", "shortheader", "postdial", "postdial_fin"}).Draw(t, "kind")}
+			p := C06Probe{Kind: rapid.SampledFrom([]string{"random", "random", "trunc", "flip", "wrongkey", "replay", "replay_burst", "reflect", "badatyp", "corruptaddr", "shortheader", "postdial", "postdial_fin"}).Draw(t, "kind")}
 			p.KeyIdx = rapid.IntRange(0, len(c.Keys)-1).Draw(t, "key")
 			p.Seed = rapid.Int64Range(1, 1<<40).Draw(t, "seed")
 			p.PayloadLen = rapid.SampledFrom([]int{0, 1, 30, 1000, 20000}).Draw(t, "plen")
@@ -64,6 +64,8 @@ func genC06Batch(maxProbes int) func(t *rapid.T) C06Batch {
 				p.Arg = rapid.SampledFrom([]int{0, 2, 5, 255}).Draw(t, "atyp")
 			case "shortheader":
 				p.Arg = rapid.IntRange(1, 6).Draw(t, "hdrlen")
+			case "replay_burst":
+				p.Arg = rapid.IntRange(0, 6).Draw(t, "copies")
 			case "postdial", "postdial_fin":
 				// where the mid-relay chunk is corrupted: 0 = length block, 1 = length tag, 2 = payload, 3 = payload tag
 				p.Arg = rapid.IntRange(0, 3).Draw(t, "where")
@@ -334,6 +336,80 @@ func c06One(w *c06World, p C06Probe, cacheOn bool, attempt int64, dialNote ...fu
 	return nil, false, class
 }
 
+// c06Burst presents 2..8 copies of one valid, never-seen handshake at the same moment (replay history on): at most
+// one of them is a client; all the others are replays, which get nothing and stay open - none of them may reach a
+// target, whichever copy the server happens to look at first.
+func c06Burst(w *c06World, p C06Probe, cacheOn bool) (*kit.Finding, string) {
+	if !cacheOn {
+		return nil, "relay"
+	}
+	q := p
+	q.Kind = "replay"
+	_, _, preface := c06Wire(w, q, 0)
+	if preface == nil {
+		return nil, "relay"
+	}
+	k := 2 + p.Arg%7
+	conns := make([]*net.TCPConn, k)
+	defer func() {
+		for _, cn := range conns {
+			if cn != nil {
+				cn.Close()
+			}
+		}
+	}()
+	for i := range conns {
+		cn, err := kit.DialTCP(w.front.Addr, 5*time.Second)
+		if err != nil {
+			return nil, "relay" // environment
+		}
+		conns[i] = cn
+	}
+	var wg sync.WaitGroup
+	start := make(chan struct{})
+	for _, cn := range conns {
+		wg.Add(1)
+		go func(cn *net.TCPConn) {
+			defer wg.Done()
+			<-start
+			cn.Write(preface)
+		}(cn)
+	}
+	t0 := time.Now()
+	close(start)
+	wg.Wait()
+	served := 0
+	var tcs []*net.TCPConn
+	for {
+		tc := w.tgt.Accept(150 * time.Millisecond)
+		if tc == nil {
+			break
+		}
+		tcs = append(tcs, tc)
+		served++
+	}
+	defer func() {
+		for _, tc := range tcs {
+			tc.Close()
+		}
+	}()
+	if served > 1 {
+		return kit.Violation("probe:replay-served", "%d identical copies of one valid handshake were presented at the same moment with the replay history on: %d of them reached the target (at most one is a client, the others are replays and must be absorbed)", k, served), "probe"
+	}
+	// nobody gets an answer or a close while the clients keep their connections open (the target stays silent)
+	if d := c06T*6/10 - time.Since(t0); d > 0 {
+		time.Sleep(d)
+	}
+	for i, cn := range conns {
+		cn.SetReadDeadline(time.Now().Add(2 * time.Millisecond))
+		n, err := cn.Read(make([]byte, 16))
+		if n > 0 || (err != nil && !kit.IsTimeout(err)) {
+			return kit.Violation("probe:closed-early", "copy %d of %d identical handshakes: got %d bytes / %v only %v after connect (timeout %v)", i, k, n, err, time.Since(t0), c06T), "probe"
+		}
+	}
+	return nil, "probe"
+}
+
 func runC06Batch(c C06Batch, info *kit.Info) *kit.Finding {
 	defer kit.NoGC()() // leaked sockets must not be rescued by finalizers
 	w, err := newC06World(c.Keys, c.CacheN)
@@ -354,7 +430,7 @@ func runC06Batch(c C06Batch, info *kit.Info) *kit.Finding {
 	var wg, dialPhase sync.WaitGroup
 	var noted sync.Map
 	for i := range c.Probes {
-		if c.Probes[i].Kind == "replay" || c.Probes[i].Kind == "postdial" || c.Probes[i].Kind == "postdial_fin" {
+		if c.Probes[i].Kind == "replay" || c.Probes[i].Kind == "replay_burst" || c.Probes[i].Kind == "postdial" || c.Probes[i].Kind == "postdial_fin" {
 			continue // these use the shared target's accept queue: run sequentially below
 		}
 		wg.Add(1)
@@ -387,6 +463,9 @@ func runC06Batch(c C06Batch, info *kit.Info) *kit.Finding {
 				}
 			}
 			break
+		}
+		if c.Probes[i].Kind == "replay_burst" {
+			res[i], classes[i] = c06Burst(w, c.Probes[i], c.CacheN > 0)
 		}
 		if c.Probes[i].Kind == "replay" || c.Probes[i].Kind == "postdial" || c.Probes[i].Kind == "postdial_fin" {
 			res[i], hit[i], classes[i] = c06One(w, c.Probes[i], c.CacheN > 0, 0)
